@@ -52,6 +52,41 @@ KERNEL_SYMS = set(['WIJ', 'WI', 'WJ', 'WDP', 'DWIJ', 'DWI', 'DWJ', 'GHI',
                    'SPH_KERNEL'])
 
 
+# Classes whose automatic set-up (every property a double array) is known not
+# to compile: they index with, or assign to C ints from, a property that has
+# to be an integer array (orig_idx, ...).  Listed as not covered without
+# spending a failed compilation on them.
+NOT_AUTOMATIC = dict((k, 'needs an integer-typed property (does not compile '
+                         'with the automatic all-double set-up)') for k in (
+    'pysph.sph.gas_dynamics.basic.ADKEUpdateGhostProps',
+    'pysph.sph.gas_dynamics.basic.MPMUpdateGhostProps',
+    'pysph.sph.gas_dynamics.gsph.GSPHUpdateGhostProps',
+    'pysph.sph.gas_dynamics.magma2.UpdateGhostProps',
+    'pysph.sph.gas_dynamics.psph.UpdateGhostProps',
+    'pysph.sph.gas_dynamics.tsph.UpdateGhostProps',
+    'pysph.sph.iisph.UpdateGhostPressure',
+    'pysph.sph.iisph.UpdateGhostProps',
+    'pysph.sph.swe.basic.FindMergeable',
+    'pysph.sph.wc.crksph.CRKSPHUpdateGhostProps'))
+
+
+def class_uses_kernel(cls):
+    for h in HOOKS:
+        f = getattr(cls, h, None)
+        if f is not None and h not in ('py_initialize', 'reduce'):
+            if KERNEL_SYMS & set(inspect.getfullargspec(f).args):
+                return True
+    return False
+
+
+def listing():
+    found = discover()
+    return dict(
+        classes=[dict(key=list(k), uses_kernel=class_uses_kernel(c),
+                      hooks=hooks_of(c)) for k, c in sorted(found.items())],
+        kernels=kernels(), not_automatic=NOT_AUTOMATIC)
+
+
 def discover():
     import pysph.sph
     from pysph.sph.equation import Equation
@@ -426,7 +461,7 @@ def setup_unit(unit, dims, kernel_cls, seed):
             unit.why = 'constructor/set-up: %s' % str(ex)[:200]
             return
     for dim in dims:
-        for attempt in range(8):
+        for attempt in range(30):
             try:
                 try_python(unit, dim, kernel_cls, props, seed)
                 break
@@ -441,8 +476,7 @@ def setup_unit(unit, dims, kernel_cls, seed):
                     if ('<%s>' % cand) in msg:
                         if cand in BASE:
                             break
-                        props[cand] = max(props[cand] + 1,
-                                          min(props[cand] * 2, 16))
+                        props[cand] = props[cand] * 2
                         grown = props[cand] <= 32
                         break
                 if not grown:
@@ -475,7 +509,10 @@ def run_classes(job):
     for key in job['classes']:
         key = tuple(key)
         u = Unit(key, found[key])
-        setup_unit(u, job['dims'], kernel_cls, job['seed'])
+        if '%s.%s' % key in NOT_AUTOMATIC and not job.get('try_all'):
+            u.why = NOT_AUTOMATIC['%s.%s' % key]
+        else:
+            setup_unit(u, job['dims'], kernel_cls, job['seed'])
         if u.why:
             recs.append(dict(id='%s/%s.%s' % (job['jid'], key[0], key[1]),
                              kind='class', jid=job['jid'], cls='%s.%s' % key,
